@@ -36,21 +36,71 @@ def writer_callee(c, W):
     """FuncInfo of `cls.M(..)` / `H5Writer.M(..)`"""
     if isinstance(c, ast.Call) and isinstance(c.func, ast.Attribute) and chain(c.func.value) in (["cls"], ["H5Writer"]):
         return W.methods.get(c.func.attr)
+    if isinstance(c, ast.Call) and isinstance(c.func, ast.Name) and W.module is not None and c.func.id not in W.methods:
+        return W.module.functions.get(c.func.id)  # a function of the writer's own module
     return None
 
 
+def method_refs(e, W, fn_node, _seen=()):
+    """writer functions an expression may denote: `cls.write_x`, a table of them, a look-up in such a table, a local bound to one"""
+    if isinstance(e, ast.Attribute) and chain(e.value) in (["cls"], ["H5Writer"]):
+        m = W.methods.get(e.attr)
+        return [m] if m is not None else []
+    if isinstance(e, ast.Dict):
+        return [m for v in e.values for m in method_refs(v, W, fn_node, _seen)]
+    if isinstance(e, (ast.Tuple, ast.List)):
+        return [m for v in e.elts for m in method_refs(v, W, fn_node, _seen)]
+    if isinstance(e, ast.IfExp):
+        return method_refs(e.body, W, fn_node, _seen) + method_refs(e.orelse, W, fn_node, _seen)
+    if isinstance(e, ast.BoolOp):
+        return [m for v in e.values for m in method_refs(v, W, fn_node, _seen)]
+    if isinstance(e, ast.Subscript):
+        return method_refs(e.value, W, fn_node, _seen)
+    if isinstance(e, ast.Call) and isinstance(e.func, ast.Attribute) and e.func.attr == "get":
+        return method_refs(e.func.value, W, fn_node, _seen) + [m for a in e.args[1:] for m in method_refs(a, W, fn_node, _seen)]
+    if isinstance(e, ast.Name) and e.id not in _seen and fn_node is not None:
+        out = []
+        for n in ast.walk(fn_node):
+            if isinstance(n, (ast.Assign, ast.AnnAssign)) and n.value is not None:
+                for t in (n.targets if isinstance(n, ast.Assign) else [n.target]):
+                    if isinstance(t, ast.Name) and t.id == e.id:
+                        out += method_refs(n.value, W, fn_node, _seen + (e.id,))
+            elif isinstance(n, (ast.For, ast.comprehension)) and any(isinstance(x, ast.Name) and x.id == e.id for x in ast.walk(n.target)):
+                out += method_refs(n.iter, W, fn_node, _seen + (e.id,))
+        return out
+    return []
+
+
+def writer_callees(c, W, fn_node=None):
+    """the writer functions a call may reach: `cls.M(..)` / `H5Writer.M(..)`, or a function value picked from a table of them"""
+    if not isinstance(c, ast.Call):
+        return []
+    m = writer_callee(c, W)
+    if m is not None:
+        return [m]
+    if isinstance(c.func, ast.Attribute) and isinstance(c.func.value, ast.Name) and c.func.value.id in ("cls", "H5Writer"):
+        return []
+    seen, out = set(), []
+    for m in method_refs(c.func, W, fn_node):
+        if m.name not in seen:
+            seen.add(m.name)
+            out.append(m)
+    return out
+
+
 def bind(callee, call):
-    """parameter name -> actual argument expression (None when the call uses * / **)"""
+    """parameter name -> actual argument expression, for the parameters that can be told: positional arguments up to the first
+    `*args`, named keywords (`**kwargs` passes options on: it names no parameter that can be followed).  The caller checks that
+    every parameter a summarised mutation reads IS bound."""
     names = own_params(callee)
     out = {}
     for nm, a in zip(names, call.args):
         if isinstance(a, ast.Starred):
-            return None
+            break
         out[nm] = a
     for k in call.keywords:
-        if k.arg is None:
-            return None
-        out[k.arg] = k.value
+        if k.arg is not None:
+            out[k.arg] = k.value
     return out
 
 
@@ -105,14 +155,13 @@ class Summaries:
         ps = own_params(fn)
         if any(self.handle_like(x) for x in ps):
             return False
-        return bool(who.handle_params) and not any(writer_callee(c, self.W) is not None for c in ast.walk(fn.node))
+        return bool(who.handle_params) and not any(writer_callees(c, self.W, fn.node) for c in ast.walk(fn.node))
 
     def instantiate(self, fn, depth=0):
         """mutation sites (call node, base, what, key) that the calls of summarised helpers in `fn` stand for"""
         out = []
-        for c in ast.walk(fn.node):
-            callee = writer_callee(c, self.W)
-            if callee is None or callee.name == fn.name or callee.name in self.modelled:
+        for c, callee in [(c, m) for c in ast.walk(fn.node) for m in writer_callees(c, self.W, fn.node)]:
+            if callee.name == fn.name or callee.name in self.modelled:
                 continue
             summ = self.of(callee, depth)
             if not summ:
@@ -123,5 +172,5 @@ class Summaries:
             for what, b, k, needs in summ:
                 if not needs <= set(mapping):
                     continue
-                out.append((c, substitute(b, mapping), f"{what} (in H5Writer.{callee.name})", substitute(k, mapping) if k is not None else None))
+                out.append((c, substitute(b, mapping), f"{what} (in {callee.name})", substitute(k, mapping) if k is not None else None))
         return out
